@@ -1,23 +1,318 @@
-//! The symbolic kernel (first cut: call log + scripted return values).
-pub const LOG: usize = 16;
+//! The symbolic kernel.
+//!
+//! Every `syscallN` of the stand-in `sc` crate lands in [`kernel`].  The kernel keeps a call log, injects
+//! faults at symbolic call indices with symbolic errno values, and models just enough of Linux for the
+//! properties that need a resource model (descriptor table, clock, nanosleep, ...).  All results the real
+//! kernel would write through pointer arguments are written through the pointer arguments.
+//!
+//! Contract lines (what the model promises, and nothing more) are listed in `CONTRACT` and copied into the
+//! evidence files.
+#![allow(static_mut_refs)]
 
-pub struct K {
-    pub calls: usize,
-    pub nr: [usize; LOG],
-    pub args: [[usize; 6]; LOG],
-    pub ret: [usize; LOG],
+use crate::nr;
+
+pub const LOG: usize = 24;
+pub const NFD: usize = 32;
+
+pub const CONTRACT: &[&str] = &[
+    "a failing call returns -errno with errno in 1..=4095 and has no other effect",
+    "fault injection: any subset of call indices (bit mask over the first 32 calls) may fail, each with its own symbolic errno",
+    "descriptor-creating calls return the lowest free descriptor; close(fd) frees it; a close of a descriptor that is not open returns -EBADF and is recorded",
+    "clock_gettime(CLOCK_MONOTONIC) never decreases; tv_nsec in 0..10^9",
+    "nanosleep either completes (returns 0) or is interrupted (-EINTR) after sleeping part of the request and then writes the exact remainder",
+    "anything not modelled returns an unconstrained value in raw mode and 0 in model mode",
+];
+
+#[derive(Clone, Copy)]
+pub struct Call {
+    pub nr: usize,
+    pub a: [usize; 6],
+    pub ret: usize,
+    pub failed: bool,
 }
 
-pub static mut KS: K = K { calls: 0, nr: [0; LOG], args: [[0; 6]; LOG], ret: [0; LOG] };
+/// Per-syscall hook a harness may install: return Some(ret) to take the call over.
+pub type Hook = fn(&mut K, usize, &[usize; 6]) -> Option<usize>;
 
-pub unsafe fn kernel(nr: usize, a: [usize; 6], _n: usize) -> usize {
-    let k = &mut *core::ptr::addr_of_mut!(KS);
-    let r: usize = kani::any();
-    if k.calls < LOG {
-        k.nr[k.calls] = nr;
-        k.args[k.calls] = a;
-        k.ret[k.calls] = r;
+pub struct K {
+    /// false: every call returns a fresh unconstrained value and touches nothing (C09).
+    pub model: bool,
+    pub calls: usize,
+    pub log: [Call; LOG],
+    /// bit i set: the i-th call (0-based) fails
+    pub fail_mask: u32,
+    /// if non-zero every injected failure uses this errno, otherwise a fresh symbolic one each time
+    pub fail_errno: usize,
+    pub n_failed: usize,
+    pub last_errno: usize,
+    pub hook: Option<Hook>,
+    // --- descriptor table
+    pub fd_open: u32,
+    pub fd_initial: u32,
+    pub fd_born: u32,
+    pub bad_close: u32,
+    pub foreign_close: u32,
+    pub use_after_close: u32,
+    // --- clock
+    pub mono_s: i64,
+    pub mono_ns: i64,
+    pub clock_calls: u32,
+    // --- nanosleep
+    pub sleep_calls: u32,
+    pub sleep_first_s: i64,
+    pub sleep_first_ns: i64,
+    pub sleep_rem_s: i64,
+    pub sleep_rem_ns: i64,
+    pub sleep_bad_request: bool,
+    pub sleep_done: bool,
+    pub sleep_max_intr: u32,
+    // --- process
+    pub exited: bool,
+    pub exit_code: usize,
+}
+
+const CALL0: Call = Call { nr: 0, a: [0; 6], ret: 0, failed: false };
+
+pub static mut KS: K = K {
+    model: false,
+    calls: 0,
+    log: [CALL0; LOG],
+    fail_mask: 0,
+    fail_errno: 0,
+    n_failed: 0,
+    last_errno: 0,
+    hook: None,
+    fd_open: 0b111,
+    fd_initial: 0b111,
+    fd_born: 0,
+    bad_close: 0,
+    foreign_close: 0,
+    use_after_close: 0,
+    mono_s: 0,
+    mono_ns: 0,
+    clock_calls: 0,
+    sleep_calls: 0,
+    sleep_first_s: 0,
+    sleep_first_ns: 0,
+    sleep_rem_s: 0,
+    sleep_rem_ns: 0,
+    sleep_bad_request: false,
+    sleep_done: false,
+    sleep_max_intr: 3,
+    exited: false,
+    exit_code: 0,
+};
+
+#[inline(always)]
+pub fn ks() -> &'static mut K {
+    unsafe { &mut *core::ptr::addr_of_mut!(KS) }
+}
+
+pub const EBADF: usize = 9;
+pub const EINTR: usize = 4;
+pub const EMFILE: usize = 24;
+
+#[inline(always)]
+pub fn err(e: usize) -> usize {
+    0usize.wrapping_sub(e)
+}
+
+pub fn is_err(r: usize) -> bool {
+    r > 0usize.wrapping_sub(4096)
+}
+
+impl K {
+    /// Model mode with a symbolic set of failing call indices.
+    pub fn model_with_faults(&mut self) {
+        self.model = true;
+        self.fail_mask = kani::any();
     }
+    /// Model mode, at most one failing call (index symbolic, may be "none").
+    pub fn model_with_one_fault(&mut self) {
+        self.model = true;
+        let at: u32 = kani::any();
+        kani::assume(at <= 32);
+        self.fail_mask = if at == 32 { 0 } else { 1u32 << at };
+    }
+    pub fn model_no_faults(&mut self) {
+        self.model = true;
+        self.fail_mask = 0;
+    }
+
+    pub fn alloc_fd(&mut self) -> usize {
+        let mut i = 0;
+        while i < NFD {
+            if self.fd_open & (1 << i) == 0 {
+                self.fd_open |= 1 << i;
+                self.fd_born |= 1 << i;
+                return i;
+            }
+            i += 1;
+        }
+        err(EMFILE)
+    }
+    pub fn fd_is_open(&self, fd: usize) -> bool {
+        fd < NFD && self.fd_open & (1 << fd) != 0
+    }
+    pub fn close_fd(&mut self, fd: usize) -> usize {
+        if self.fd_is_open(fd) {
+            if self.fd_born & (1 << fd) == 0 {
+                self.foreign_close += 1;
+            }
+            self.fd_open &= !(1 << fd);
+            0
+        } else {
+            self.bad_close += 1;
+            err(EBADF)
+        }
+    }
+    pub fn touch_fd(&mut self, fd: usize) {
+        if !self.fd_is_open(fd) {
+            self.use_after_close += 1;
+        }
+    }
+    /// calls (by index) with this syscall number
+    pub fn count_nr(&self, n: usize) -> usize {
+        let mut c = 0;
+        let mut i = 0;
+        while i < LOG && i < self.calls {
+            if self.log[i].nr == n {
+                c += 1;
+            }
+            i += 1;
+        }
+        c
+    }
+}
+
+pub unsafe fn kernel(n: usize, a: [usize; 6], _nargs: usize) -> usize {
+    let k = ks();
+    let idx = k.calls;
     k.calls += 1;
+    let mut failed = false;
+    let r = if !k.model {
+        kani::any()
+    } else if idx < 32 && k.fail_mask & (1u32 << idx) != 0 && n != nr::EXIT && n != nr::EXIT_GROUP {
+        failed = true;
+        k.n_failed += 1;
+        let e: usize = if k.fail_errno != 0 {
+            k.fail_errno
+        } else {
+            let e: usize = kani::any();
+            kani::assume(e >= 1 && e <= 4095);
+            e
+        };
+        k.last_errno = e;
+        err(e)
+    } else {
+        let hooked = match k.hook {
+            Some(h) => h(k, n, &a),
+            None => None,
+        };
+        match hooked {
+            Some(r) => r,
+            None => model(k, n, &a),
+        }
+    };
+    if idx < LOG {
+        k.log[idx] = Call { nr: n, a, ret: r, failed };
+    }
     r
+}
+
+unsafe fn model(k: &mut K, n: usize, a: &[usize; 6]) -> usize {
+    match n {
+        nr::OPENAT | nr::OPEN | nr::SOCKET | nr::EPOLL_CREATE1 | nr::IO_URING_SETUP | nr::DUP | nr::EPOLL_CREATE
+        | nr::MEMFD_CREATE | nr::EVENTFD2 | nr::TIMERFD_CREATE | nr::SIGNALFD4 | nr::INOTIFY_INIT1 => k.alloc_fd(),
+        nr::ACCEPT4 | nr::ACCEPT => {
+            k.touch_fd(a[0]);
+            k.alloc_fd()
+        }
+        nr::PIPE2 | nr::PIPE => {
+            let p = a[0] as *mut i32;
+            let r = k.alloc_fd();
+            let w = k.alloc_fd();
+            *p = r as i32;
+            *p.add(1) = w as i32;
+            0
+        }
+        nr::SOCKETPAIR => {
+            let p = a[3] as *mut i32;
+            let r = k.alloc_fd();
+            let w = k.alloc_fd();
+            *p = r as i32;
+            *p.add(1) = w as i32;
+            0
+        }
+        nr::DUP3 | nr::DUP2 => {
+            k.touch_fd(a[0]);
+            let newfd = a[1];
+            if newfd < NFD {
+                if k.fd_open & (1 << newfd) == 0 {
+                    k.fd_born |= 1 << newfd;
+                }
+                k.fd_open |= 1 << newfd;
+            }
+            newfd
+        }
+        nr::CLOSE => k.close_fd(a[0]),
+        nr::CLOCK_GETTIME => {
+            // arbitrary non-decreasing instants
+            let ds: i64 = kani::any();
+            let ns: i64 = kani::any();
+            kani::assume(ns >= 0 && ns < 1_000_000_000);
+            kani::assume(ds >= 0 && ds <= i64::MAX - k.mono_s);
+            let s = k.mono_s + ds;
+            kani::assume(ds > 0 || ns >= k.mono_ns);
+            k.mono_s = s;
+            k.mono_ns = ns;
+            k.clock_calls += 1;
+            let p = a[1] as *mut i64;
+            *p = s;
+            *p.add(1) = ns;
+            0
+        }
+        nr::NANOSLEEP => {
+            let req = a[0] as *const i64;
+            let (rs, rn) = (*req, *req.add(1));
+            if k.sleep_calls == 0 {
+                k.sleep_first_s = rs;
+                k.sleep_first_ns = rn;
+            } else if rs != k.sleep_rem_s || rn != k.sleep_rem_ns {
+                // a retry must ask for exactly what was left
+                k.sleep_bad_request = true;
+            }
+            if k.sleep_done {
+                k.sleep_bad_request = true;
+            }
+            k.sleep_calls += 1;
+            let interrupt: bool = kani::any();
+            if interrupt && k.sleep_calls <= k.sleep_max_intr {
+                // slept part of it: remainder is any normalised value <= request
+                let ms: i64 = kani::any();
+                let mn: i64 = kani::any();
+                kani::assume(ms >= 0 && mn >= 0 && mn < 1_000_000_000);
+                kani::assume(ms < rs || (ms == rs && mn <= rn));
+                k.sleep_rem_s = ms;
+                k.sleep_rem_ns = mn;
+                let rem = a[1] as *mut i64;
+                if !rem.is_null() {
+                    *rem = ms;
+                    *rem.add(1) = mn;
+                }
+                err(EINTR)
+            } else {
+                k.sleep_done = true;
+                0
+            }
+        }
+        nr::EXIT | nr::EXIT_GROUP => {
+            k.exited = true;
+            k.exit_code = a[0];
+            // the path ends here: nothing after exit() executes
+            kani::assume(false);
+            0
+        }
+        _ => 0,
+    }
 }
